@@ -248,7 +248,7 @@ def g2_remainder_guard(ctx, res: Result, fi: FuncInfo, par=None) -> int:
             v = st.value
             terms = sum_terms(v)
             one = any(sg == 1 and isinstance(t, ast.Constant) and t.value == 1 for sg, t in terms)
-            negs = [t.id for sg, t in terms if sg == -1 and isinstance(t, ast.Name)]
+            negs = [src(t) for sg, t in terms if sg == -1 and (isinstance(t, ast.Name) or (isinstance(t, ast.Call) and src(t.func) == "sum"))]
             tgt = st.targets[0] if isinstance(st, ast.Assign) else st.target
             if not (one and negs) or not isinstance(tgt, ast.Subscript):
                 continue
